@@ -158,11 +158,13 @@ def main(tier, replay=None):
         for h, (srcs, wb) in HARNESSES.items():
             hs[h] = vlib.build_harness_wb(lib, srcs, os.path.join(lib["dir"], h), wb, None) if wb else \
                 vlib.build_harness(lib, srcs, os.path.join(lib["dir"], h))
-        return co, hs
+        return co, (hs, lib)
     with concurrent.futures.ThreadPoolExecutor(max_workers=4) as ex:
         f_models = [ex.submit(vlib.tlc, m, cfg, wd, 2, "3g") for m, cfg in (("SeqModel", "Seq_Array_quick.cfg"), ("TableImpl", "Table_edges.cfg"),
                                                                             ("CStringModel", "CString_quick.cfg"), ("RBTree", "Tree_edges.cfg"))]
-        built = dict(ex.map(build, combos))
+        both = dict(ex.map(build, combos))
+        built = {co: v[0] for co, v in both.items()}
+        built_libs = {co: v[1] for co, v in both.items()}
         ndet = 0
         for f, name in zip(f_models, ("SeqModel", "TableImpl", "CStringModel", "RBTree")):
             r = f.result()
@@ -170,11 +172,35 @@ def main(tier, replay=None):
             ndet += deterministic(list(r.lines("EDGE")), name)
     chk.cov["deterministic_state_action_pairs"] = ndet
     chk.lap("built %d configurations x %d harnesses; specifications deterministic on %d (state, operation) pairs" % (len(combos), len(HARNESSES), ndet))
-    if replay:
-        print("replay: run `bin/check C18 quick` (the replay file names the harness, the configuration and the script)")
-        return 0
-
     ref_co = ("default", "-O0")
+    if replay:
+        txt = open(replay).read().splitlines()
+        m = re.match(r"# harness (\S+) configuration (\S+) (\S+)", txt[0])
+        if not m:
+            raise vlib.ToolError("replay file does not name harness and configuration")
+        h, co = m.group(1), (m.group(2), m.group(3))
+        if co not in both:
+            both.update([build(co)])
+        body = [l for l in txt[1:] if l.strip()]
+        k = next(i for i, l in enumerate(body) if l.split()[0] == "reset")
+        hdr, ex1 = body[:k], body[k:]
+        if h == "h_cfg":
+            outs = []
+            for c in (ref_co, co):
+                hb = vlib.build_harness(both[c][1], ["h_cfg.c"], os.path.join(both[c][1]["dir"], "h_cfg"))
+                outs += [x for (_l, e) in runner.execute(chk, hb, [], [ex1], tag="rp_%s" % c[0]) for x in e]
+            tp = os.path.join(wd, "replay.ndjson"); open(tp, "w").write("\n".join(outs) + "\n")
+            bad = not vlib.validate_trace("CfgTrace", "CfgTrace.cfg", tp, wd)[0]
+        else:
+            a = [norm(x) for (_l, e) in runner.execute(chk, both[ref_co][0][h], hdr, [ex1], tag="rp_ref") for x in e]
+            b = [norm(x) for (_l, e) in runner.execute(chk, both[co][0][h], hdr, [ex1], tag="rp_cfg") for x in e]
+            bad = a != b
+        if bad:
+            print("replay: %s under %s %s still disagrees with the reference" % (h, co[0], co[1]))
+            print("VIOLATION property=%s replay=%s" % (PID, replay))
+            return 1
+        print("replay: configurations agree")
+        return 0
     nexec = ndiff = nev = 0
     for h, groups in W.items():
         module, cfg = TRACE_SPEC[h]
@@ -207,6 +233,33 @@ def main(tier, replay=None):
             ev = rej.failing_event()
             chk.violation("%s: reference trace rejected by %s at event %d op=%s" % (origin, module, rej.event_index, ev.get("op")), "\n".join(hdr + rej.lines))
         chk.lap("%s: compared across %d configurations" % (h, len(combos)))
+    # the allocation-heavy mixed program: all configurations in one log, TLC (CfgTrace) demands one digest per (seed, round)
+    hcfg = {co: vlib.build_harness(built_libs[co], ["h_cfg.c"], os.path.join(built_libs[co]["dir"], "h_cfg")) for co in combos}
+    progs = [["reset", "mix %d %d" % (rng.randint(1, 10**6), 5 if quick else 25)] for _ in range(4 if quick else 12)]
+
+    def cfg_trace(tag):
+        order, lines = [], []
+        for co in [ref_co] + [c for c in combos if c != ref_co]:
+            for (l, e) in runner.execute(chk, hcfg[co], [], progs, tag="%s_%s%s" % (tag, co[0], co[1].replace("-", ""))):
+                for x in e:
+                    order.append((co, l)); lines.append(x)
+        tp = os.path.join(wd, "%s.ndjson" % tag)
+        open(tp, "w").write("\n".join(lines) + "\n")
+        ok, matched, total, _r = vlib.validate_trace("CfgTrace", "CfgTrace.cfg", tp, wd)
+        return ok, matched, total, order, lines
+    ok, matched, total, order, lines = cfg_trace("cfgmix")
+    nev += total
+    if not ok:
+        ok2, matched2, _t, order2, lines2 = cfg_trace("cfgmix_confirm")
+        if ok2 or order2[matched2][0] != order[matched][0]:
+            raise vlib.ToolError("rejection of the mixed program under %s %s did not reproduce" % order[matched][0])
+        co, l = order[matched]
+        chk.violation("mixed program under %s %s: event %s is not what the first configuration computed for the same (seed, round), "
+                      "or a live object lost its value / an exception escaped" % (co[0], co[1], lines[matched][:300]),
+                      "# harness h_cfg configuration %s %s\n%s" % (co[0], co[1], "\n".join(l)))
+    else:
+        chk.cov["traces_validated_against_impl"] = chk.cov.get("traces_validated_against_impl", 0) + len(progs) * len(combos)
+    chk.lap("h_cfg: %d programs x %d configurations validated by CfgTrace" % (len(progs), len(combos)))
     chk.cov["evaluations"] = nev
     chk.cov["executions_compared"] = nexec * (len(combos) - 1)
     chk.cov["distinct_nontrivial"] = max(nexec, 2)
